@@ -263,4 +263,46 @@ def genGames (seed n maxLen : Nat) : List String := Id.run do
       out := out.push (s!"game {fenTok root}" ++ String.join (steps.map fun (_, m) => " " ++ m.uci))
   return out.toList
 
+/-- a legal quiet, reversible move (no capture, pawn move, castling or promotion) -/
+def isQuietReversible (m : Move) : Bool :=
+  !m.isAttack && !m.isPromotion && !m.f.castle && !m.f.enPassant && m.f.pieceMoved != PAWN
+
+/-- emit `n` lines `repgame <rootfen_> <prefix moves…> | <m1> <n1> <m2> <n2>`: after the prefix the four moves
+shuffle two pieces out and back, so repeating them repeats the position -/
+def genRepGames (seed n : Nat) : List String := Id.run do
+  let mut r := Rng.ofSeed (seed + 104729)
+  let mut out : Array String := #[]
+  let rootBoards := roots.filterMap fun s => match fromFenString s with | .ok b => some b | .error _ => none
+  let mut guard := 0
+  while out.size < n && guard < 50 * n + 100 do
+    guard := guard + 1
+    let (startCoin, r0) := r.below 2
+    let (root, r1) := if startCoin == 0 then (startBoard, r0) else r0.pick rootBoards
+    let (hm, r1) := r1.below 90
+    let root := { root with halfmove := if root.ep == 0 then hm else root.halfmove }
+    let (len, r2) := r1.below 30
+    let (steps, p, r3) := playout len root r2 []
+    r := r3
+    if !wf root then continue
+    let q1 := (genLegal p).filter isQuietReversible
+    if q1.isEmpty then continue
+    let (m1, r4) := r.pick q1
+    r := r4
+    let p1 := make p m1
+    let q2 := (genLegal p1).filter isQuietReversible
+    if q2.isEmpty then continue
+    let (n1, r5) := r.pick q2
+    r := r5
+    let p2 := make p1 n1
+    match (genLegal p2).find? (fun m => m.f.source == m1.f.target && m.f.target == m1.f.source && isQuietReversible m) with
+    | none => continue
+    | some m2 =>
+      let p3 := make p2 m2
+      match (genLegal p3).find? (fun m => m.f.source == n1.f.target && m.f.target == n1.f.source && isQuietReversible m) with
+      | none => continue
+      | some n2 =>
+        out := out.push (s!"repgame {fenTok root}" ++ String.join (steps.map fun (_, m) => " " ++ m.uci)
+          ++ s!" | {m1.uci} {n1.uci} {m2.uci} {n2.uci}")
+  return out.toList
+
 end Inkayaku.Generate
